@@ -637,7 +637,8 @@ class ModelView:
             elif op["op"] == "edit":
                 n, v = op["name"], op["version"]
                 cur[n] = v
-                ops.append(["edit", self.tid[n], [self.item(n, v, i) for i in range(len(self.files[n][v]["items"]))], op["mtime"]])
+                ops.append(["edit", self.tid[n], [self.tid.get(i, 0) for i in self.files[n][v]["imports"]],
+                            [self.item(n, v, i) for i in range(len(self.files[n][v]["items"]))], op["mtime"]])
             elif op["op"] == "reload":
                 ops.append(["reload"])
         return sexp.dumps(["run", FUEL, [self.tid[n] for n in self.names], files, lazy, mods, self.rules(), ops])
@@ -915,10 +916,7 @@ def run_scenarios(ctx, scs, src, label):
             ctx.count("final:" + map_res(h["ops"][-1]["res"]))
             if judge_spec(ctx, sc, f, views[idx], "fresh") or judge_spec(ctx, sc, h, views[idx], "history"):
                 nviol += 1
-            if stale_imports_class(sc):
-                ctx.count("not-modelled:imports-edited")      # the model has no edit of imports
-            else:
-                correspond(ctx, sc, h, f, src, out[idx] if out else None, views[idx], "%s-%d" % (label, idx))
+            correspond(ctx, sc, h, f, src, out[idx] if out else None, views[idx], "%s-%d" % (label, idx))
     if out is None:
         ctx.broken("correspondence:c12:driver", "model driver unavailable")
     return nviol
@@ -968,8 +966,8 @@ def run(ctx):
     ctx.assumptions += [
         "item contents and the parser are opaque in the model: the result of parsing an item is a function of the item and of the items visible",
         "Lean theorems are about histories that keep file contents (touch, loads, faulted loads, imports, load_metadata); edits are "
-        "covered by the subprocess oracle and the model correspondence only",
-        "a change of a file's `imports` needs basic.load_metadata() before the next load (not generated: see MANIFEST note)",
+        "covered by the subprocess oracles and the model correspondence only",
+        "a change of a file's `imports` needs basic.load_metadata() before the next load (known finding, generated and keyed)",
         "the Python package smt/ of the repository is shadowed by site-packages and is not imported in histories"]
     corpus = load_corpus(ctx)
     if corpus:
@@ -993,16 +991,23 @@ def replay(ctx, rp):
 
 
 MANIFEST = {
-    "text": "Lean theorems about an executable model of the loader state machine (cache with timestamps, global theory, fresh_theory "
-            "blocks, import side effects, faults): after every history of loads, faulted loads, module imports, touches and metadata "
-            "reloads, load_theory leaves exactly the specified item list, a missing limit / a cycle is an error, a changed file is re-read. "
-            "Module and import tables are regenerated from the sources each run; the model is tied to logic/basic.py by running scripted "
-            "histories in subprocesses and comparing outcome, files parsed, modules executed and the items of theory.thy; every history is "
-            "also judged directly against a fresh process.",
-    "note": "Trusted: Lean kernel, propext/Classical.choice/Quot.sound, the harness (tracing wrappers, ast scan of module-level imports). "
-            "Item contents are opaque. Theorems cover content-preserving histories; edits of files (including edits of imported files, fix "
-            "C12-3) are covered by the subprocess oracle and model correspondence only. A change of a file's imports without "
-            "basic.load_metadata() is outside what is generated. Model = code with fixes C12-1..4.",
+    "text": "Lean theorems about an executable model of the loader state machine (per-user cache with timestamps and dependency "
+            "timestamps, global theory, fresh_theory blocks, import-once module side effects, injected faults), for every world "
+            "(parser, lazy-import table, module bodies), library, timestamps and fuel: after every history of loads, interrupted loads, "
+            "module imports, os.utime and load_metadata, load_theory(n, limit) on a healthy library returns exactly what the "
+            "specification says (load_eq_spec: same outcome, same item list; missing limit reported; never a failure caused by "
+            "the history); cycles are reported by every load with nothing cached; a file with a changed timestamp is parsed again. "
+            "Module/import/lazy tables are regenerated from the sources each run and checked (acyclic, orders exist, module loads "
+            "exist). The model is tied to logic/basic.py by scripted histories run in subprocesses: outcome of every step, files "
+            "parsed, modules executed and the items of theory.thy must equal the model's; every history is also judged against a "
+            "fresh process and against an independent reference loader.",
+    "note": "Trusted: Lean kernel, propext/Classical.choice/Quot.sound, the harness (tracing wrappers, ast scan of module-level "
+            "imports; function-level imports not followed), the reference loader. Item contents are opaque (parse result = function "
+            "of item and visible items). Theorems cover content-preserving histories; edits of files that keep the imports "
+            "(including edits of imported files, fix C12-3) are covered by the subprocess oracles and the model correspondence only. "
+            "Known finding: edited `imports` are not re-read without load_metadata (stale_imports_counterexample). Model fuel: "
+            "theorems hold for every fuel, with 'ran out of fuel' as an explicit outcome; sufficiency of fuel is not proved. "
+            "Model = code with fixes C12-1..4; single user (master).",
     "design_ref": "DESIGN.md 4/C12",
 }
 FINDINGS = [
